@@ -806,7 +806,8 @@ def regex_substr(expression: exp.Expression) -> exp.Expression:
         # pattern: snowflake requires escaping backslashes in single-quoted string constants, but duckdb doesn't
         # see https://docs.snowflake.com/en/sql-reference/functions-regexp#label-regexp-escape-character-caveats
         pattern = expression.expression
-        pattern.args["this"] = pattern.this.replace("\\\\", "\\")
+        if isinstance(pattern, exp.Literal):
+            pattern.args["this"] = pattern.this.replace("\\\\", "\\")
 
         # number of characters from the beginning of the string where the function starts searching for matches
         position = expression.args["position"] or exp.Literal(this="1", is_string=False)
@@ -840,7 +841,11 @@ def regex_substr(expression: exp.Expression) -> exp.Expression:
                 this="regexp_extract_all",
                 expressions=[
                     # slice subject from position onwards
-                    exp.Bracket(this=subject, expressions=[exp.Slice(this=position)]),
+                    # (anything but a column or literal needs parentheses: NULL[1:] and a || b[1:] are not what is meant)
+                    exp.Bracket(
+                        this=subject if isinstance(subject, (exp.Column, exp.Literal)) else exp.Paren(this=subject),
+                        expressions=[exp.Slice(this=position)],
+                    ),
                     pattern,
                     group_num,
                     regex_parameters,
